@@ -46,7 +46,7 @@ Definition all_inv (i : nat) : bool := true.
 
 (* simplify_cfg: the set the model's worklist computes *)
 Definition cfg_inv (ops : list op) : nat -> bool :=
-  match reach (3 * length ops + 3) (succ_table ops) (length ops) [0%nat] PS.empty with
+  match cfg_seen ops with
   | Some seen => fun i => PS.mem (ikey i) seen
   | None => fun _ => true
   end.
